@@ -182,7 +182,11 @@ ListApply(l, o, fam) ==
        [] o.op = "reset" ->
             IF ~IsL(o.x) THEN Out(l, Err("ValueError"))
             ELSE IF Forbidden(o.x, fam) THEN
-              {[val |-> L(q), ret |-> Err("Rejected")] : q \in {s} \cup {SubSeq(o.x.s, 1, m) \o SubSeq(s, m + 1, n) : m \in 0..Len(o.x.s)}}
+              \* bulk rejection: a prefix of acceptable elements may already have been merged
+              LET bad == {m \in 1..Len(o.x.s) : Forbidden(o.x.s[m], fam)}
+                  firstbad == CHOOSE m \in bad : \A b \in bad : m <= b
+              IN {[val |-> L(q), ret |-> Err("Rejected")]
+                    : q \in {s} \cup {SubSeq(o.x.s, 1, m) \o SubSeq(s, m + 1, n) : m \in 0..(firstbad - 1)}}
             ELSE Out(o.x, Null)
        [] o.op = "eq" -> Out(l, Bool(PyEq(l, o.x)))
        [] o.op = "ne" -> Out(l, Bool(~PyEq(l, o.x)))
